@@ -73,4 +73,14 @@ theorem logger_state_pinned :
     Generated.C20.loggerStdFieldTypes = ["io.Writer", "sync.Mutex"] ∧ Generated.C20.loggerFieldCount = 3 ∧
     Generated.C20.syncPoolVars = 1 ∧ Generated.C20.logCalls.contains "Reset" = true := by decide
 
+/-- The only call site hands `Log` an event whose `Response` is the address of an `http.Response` literal
+(in place or through a local assigned once from it): never nil — the renderers dereference it unchecked and the
+model's `Event` has no "nil response" case. Its `StatusCode` and `ContentLength` are fields of the very
+`ResponseWriter` that was handed to the handler (the capturing wrapper of `c20.capture`).
+Was an obligation while no C20 stream ran `ServeHTTP`; `c20.serve` now does, records the event handed to
+`Log` and compares status and size with what the client connection received. -/
+theorem call_site_pinned :
+    Generated.C20.eventSiteResponseIsLiteral = true ∧
+    Generated.C20.eventSiteStatusAndSizeFromHandlerWriter = true := by decide
+
 end Fabio.Props.C20Pins
